@@ -46,6 +46,10 @@ func options(full bool) []option {
 		{"units=ft", "+datum=WGS84 +units=ft", true, 0.3048, 0},
 		{"units=us-ft", "+ellps=GRS80 +towgs84=0,0,0 +units=us-ft", true, 1200.0 / 3937.0, 0},
 		{"sphere", "+a=6370997 +b=6370997", false, 1, 0},
+		// pairs of options that interact: a prime meridian together with a datum
+		// shift, and a 7-term shift whose translations are zero
+		{"pm=paris+towgs84-3", "+ellps=clrk80 +towgs84=-168,-60,320 +pm=paris", true, 1, 2.337229166667},
+		{"towgs84-7-rotation-only", "+ellps=intl +towgs84=0,0,0,0.35,-0.12,1.1,2.5", true, 1, 0},
 	}
 	if !full {
 		return o
